@@ -10,7 +10,8 @@ from ..cfg import no_exc
 from ..report import Registry, chain, sub
 from ._helpers_rules_d import attr_store_nodes, call_nodes, callee_is, ends_with_name, guard_atom_set, qualname
 from .c32 import BOOKKEEPING, _is_tx, _tx_exprs, check_rollback_restores, declared_methods
-from ._helpers_rob_B2 import bind_args, bool_binds, callee_simple_name, expand, is_bound_method, param_names, resolved_atom_set, single_binds
+from ._helpers_rob_B2 import (bind_args, bool_binds, callee_simple_name, expand, helper_key_stores, is_bound_method, key_store_helpers, param_names,
+                              resolved_atom_set, single_binds)
 
 R = Registry(
     "C33",
@@ -433,6 +434,13 @@ def r6(ctx):
     m = ctx.index.module(SESSION)
     pm = m.parents()
     n_inst = 0
+
+    def imaps_of(fn_node):
+        return {n for n, v, st_ in name_stores(fn_node) if v is not None and (dotted(v) or "").endswith("identity_map")}
+
+    # a private helper that assigns the key of a state handed to it: its call is the key store of the caller
+    helpers = key_store_helpers(ctx, m, lambda c, v, f_: _imap_call(c, DISCARDS, v, imaps_of(f_)), lambda c, v, f_: _imap_call(c, REGISTERS, v, imaps_of(f_)),
+                                lambda g_, f_, n_: guard_atom_set(g_, n_))
     for f in ctx.index.all_functions(m):
         if f.type_only:
             continue
@@ -442,18 +450,30 @@ def r6(ctx):
                 for t in st.targets:
                     if isinstance(t, ast.Attribute) and t.attr == "key" and isinstance(t.value, ast.Name):
                         stores.setdefault(t.value.id, []).append(st)
-        for var, sts in sorted(stores.items()):
-            imaps = {n for n, v, st_ in name_stores(f.node) if v is not None and (dotted(v) or "").endswith("identity_map")}
+        via_helper = helper_key_stores(f.node, helpers)
+        own = helpers.get(f.name)
+        own = own if own is not None and own.fn is f.node and own.followed else None
+        for var in sorted(set(stores) | set(via_helper)):
+            sts = stores.get(var, [])
+            imaps = imaps_of(f.node)
             calls = [c for c in calls_in(f.node) if _imap_call(c, DISCARDS + REGISTERS, var, imaps)]
-            if not calls:
+            if not calls and not via_helper.get(var):
                 continue
             ctx.functions_analysed.add(f.key)
             g = ctx.cfg(f)
             disc = call_nodes(g, lambda c: _imap_call(c, DISCARDS, var, imaps))
             reg = call_nodes(g, lambda c: _imap_call(c, REGISTERS, var, imaps))
             problems, wit = [], None
+            # (statement, node, text, discard is the helper's / the callers' business, registration is the helper's / the callers' business)
+            sites = []
             for st in sts:
-                loops = [a for a in ancestors(pm, st) if isinstance(a, (ast.For, ast.While))]
+                for N in g.nodes_for(st):
+                    dl = own is not None and var == own.param
+                    sites.append((st, N, unparse(st), dl and not own.discards_first, dl and not own.registers_after))
+            for _, h, c in via_helper.get(var, []):
+                for N in call_nodes(g, lambda x: x is c):
+                    sites.append((g.node(N).stmt, N, f"{h.fn.name}({var}, ...) [which assigns {h.param}.key]", h.discards_first, h.registers_after))
+            for st, N, txt, disc_elsewhere, reg_elsewhere in sites:
                 inner = None
                 for a in ancestors(pm, st):
                     if a is f.node:
@@ -463,29 +483,29 @@ def r6(ctx):
                         break
                 heads = g.nodes_for(inner) if inner is not None else []
                 starts = heads or [g.entry]
-                for N in g.nodes_for(st):
-                    fresh = (f"{var}.key is None", True) in guard_atom_set(g, N)
-                    if not fresh:
-                        w = g.witness(starts, [N], avoid=disc)
-                        if w is not None or not disc:
-                            problems.append(f"`{unparse(st)}` can run before identity_map.{'/'.join(DISCARDS[:1])}({var}): the entry filed under the state's current key is never removed")
-                            wit = wit or (g.describe_path(w) if w else None)
-                    w = g.witness([N], disc, avoid=heads)
-                    if w is not None:
-                        problems.append(f"identity_map discard of `{var}` runs after `{unparse(st)}`: it looks the state up under the NEW key, so the entry under the previous key stays in the identity map")
-                        wit = wit or g.describe_path(w)
+                fresh = (f"{var}.key is None", True) in guard_atom_set(g, N)
+                if not fresh and not disc_elsewhere:
+                    w = g.witness(starts, [N], avoid=disc)
+                    if w is not None or not disc:
+                        problems.append(f"`{txt}` can run before identity_map.{'/'.join(DISCARDS[:1])}({var}): the entry filed under the state's current key is never removed")
+                        wit = wit or (g.describe_path(w) if w else None)
+                w = g.witness([N], disc, avoid=heads)
+                if w is not None:
+                    problems.append(f"identity_map discard of `{var}` runs after `{txt}`: it looks the state up under the NEW key, so the entry under the previous key stays in the identity map")
+                    wit = wit or g.describe_path(w)
+                if not disc_elsewhere or st in sts:
                     w = g.witness(reg, [N], avoid=heads)
                     if w is not None:
-                        problems.append(f"`{var}` is registered in the identity map before `{unparse(st)}` (filed under the previous key)")
+                        problems.append(f"`{var}` is registered in the identity map before `{txt}` (filed under the previous key)")
                         wit = wit or g.describe_path(w)
-                    if g.witness([N], reg, avoid=heads) is None:
-                        problems.append(f"after `{unparse(st)}` the state is never registered again under its new key")
+                if not reg_elsewhere and g.witness([N], reg, avoid=heads) is None:
+                    problems.append(f"after `{txt}` the state is never registered again under its new key")
             n_inst += 1
             uniq = []
             for p_ in problems:
                 if p_ not in uniq:
                     uniq.append(p_)
-            ctx.check(not uniq, f"{f.key}:rekey[{var}]", "; ".join(uniq), f"{len(sts)} key store(s): discard < key store < register", f.loc, wit)
+            ctx.check(not uniq, f"{f.key}:rekey[{var}]", "; ".join(uniq), f"{len(sites)} key store(s): discard < key store < register", f.loc, wit)
     ctx.require(n_inst >= 1, "no re-keying site found in orm/session.py")
 
 
